@@ -13,6 +13,7 @@ import (
 	"io"
 	"math/rand"
 	"net"
+	"os"
 	"runtime/debug"
 	"sort"
 	"strings"
@@ -121,6 +122,18 @@ type Group struct {
 	// callback of session 1 (same goroutine, same Negotiator value).
 	Nested bool `json:"nested,omitempty"`
 	Reps   int  `json:"repetitions"`
+	// WriteFaults: after the fault-free run, the (single) session is run again
+	// once per (write of the fault-free run, fault kind): that write fails, times
+	// out or is cut short, while the peer stays willing to go on.
+	WriteFaults bool `json:"write_faults,omitempty"`
+}
+
+// faultPlan places one transport fault on the K-th Write call of a session.
+type faultPlan struct {
+	K      int    // 1-based index of the Write call
+	Kind   string // fail | timeout | short
+	Cut    int    // short: absolute byte offset at which the write is cut
+	Target string // what the fault-free run wrote there: hdr | features | other
 }
 
 func elig(f *Feat, st uint8) bool { return st&f.Nec == f.Nec && st&f.Proh == 0 }
@@ -342,9 +355,48 @@ func genDynShaped(r *rand.Rand, index int) *Group {
 	return g
 }
 
+// genWriteFaults builds the deterministic write-fault families (case indexes
+// 4-7 mod 32): a single session, either random (4, 5) or shaped so that the
+// fault-free run contains a restart (6, 7).
+func genWriteFaults(r *rand.Rand, index int) *Group {
+	role := "receiver"
+	if index%2 == 0 {
+		role = "initiator"
+	}
+	ws := r.Intn(4) == 0
+	tee := r.Intn(4) == 0
+	var feats []Feat
+	if index%32 >= 6 {
+		feats = []Feat{
+			{Space: "urn:verif:f0", Local: "f0", Restart: true, Proh: bSecure, Mask: bSecure, Req: role == "initiator"},
+			{Space: "urn:verif:f1", Local: "f1", Req: true, BindLike: true, Nec: bSecure},
+			{Space: "urn:verif:f2", Local: "f2", Info: r.Intn(2) == 0},
+		}
+	} else {
+		feats = genFeats(r, role == "receiver")
+	}
+	for i := range feats {
+		feats[i].CfgStates, feats[i].CfgProfiles = 0xF, 0x7
+	}
+	c := genSession(r, role, ws, tee, feats)
+	c.SkipHeader = 0
+	if index%32 >= 6 {
+		c.Init = 0
+		if role == "receiver" {
+			c.Sels = []Sel{{Cat: "fresh", Pick: 0}, {Cat: "fresh", Pick: 0}, {Cat: "fresh", Pick: 0}}
+		} else {
+			c.Ads = [][]AdItem{{{Feat: 0}, {Feat: 2}}, {{Feat: 1}, {Feat: 2}}, nil}
+		}
+	}
+	return &Group{Sessions: []*Cfg{c}, Reps: 1, WriteFaults: true}
+}
+
 func gen(r *rand.Rand, index int) *Group {
 	if index%32 < 4 {
 		return genDynShaped(r, index)
+	}
+	if index%32 < 8 {
+		return genWriteFaults(r, index)
 	}
 	g := &Group{Reps: 1}
 	role := "receiver"
@@ -470,6 +522,9 @@ type exec struct {
 	nestedRan                  bool
 	consults                   int // config callback invocations for this session
 	overlap                    bool
+	fault                      *faultPlan
+	writeErrs                  int  // Write calls of the library that returned an error
+	blind                      bool // the peer selected from a list it never received
 	ranAway                    bool
 	legitRan                   bool
 }
@@ -481,14 +536,6 @@ func (e *exec) logf(format string, a ...any) {
 }
 
 func (e *exec) violate(rule int, class, format string, a ...any) {
-	if e.overlap && e.cfg.Dyn {
-		// Sessions that overlap in time on one Negotiator value, with a config
-		// callback that answers differently per session: whatever goes wrong here
-		// may come from one session negotiating with what the callback returned
-		// for another (schedule-dependent).  Such reports get a class of their own
-		// so that they never share a key with a sequential root cause.
-		class = "overlapping-sessions-dynamic-config"
-	}
 	key := fmt.Sprintf("neg:%d:%s:%s", rule, e.cfg.Role, class)
 	e.c.Violate(key, "%s\ntranscript:\n  %s", fmt.Sprintf(format, a...), strings.Join(e.log, "\n  "))
 }
@@ -638,6 +685,11 @@ func (e *exec) onNegotiate(f *Feat, s *xmpp.Session, data any) (xmpp.SessionStat
 			class := "unadvertised"
 			if f.Space == nsStartTLS {
 				class = "starttls-not-exempt"
+			}
+			if role == "receiver" && e.writeErrs > 0 {
+				// List ran, but the Write carrying the list failed: on the wire of
+				// this stream there is no (complete) advertisement
+				class = "advertisement-not-transmitted"
 			}
 			e.violate(2, class, "Negotiate(%s) called but the feature is in no features list of the current stream (lists on this session: %d)", f.Local, e.nLists)
 		}
@@ -1222,6 +1274,26 @@ func (e *exec) receiverScript(written []byte) ([]byte, bool) {
 			return []byte(h), false
 		}
 	}
+	if len(e.listCalls) > 0 && e.writeErrs > 0 {
+		// List callbacks ran but no features list was seen on the wire since: the
+		// write that carried it failed.  The peer (think: pipelined input) selects
+		// anyway, one of the features the library was about to advertise.
+		var pool []*Feat
+		for _, f := range e.listCalls {
+			if !f.Info && !e.negotiated[f.Space] {
+				pool = append(pool, f)
+			}
+		}
+		e.listCalls = nil
+		if len(pool) > 0 {
+			f := pool[0]
+			e.blind = true
+			e.c.Count("wf_blind_selections_after_lost_advertisement", 1)
+			el := elemText(f.Space, f.Local, false, false)
+			e.logf("peer> %s   [blind: the advertisement never arrived]", el)
+			return []byte(el), false
+		}
+	}
 	if e.nextSel >= len(e.cfg.Sels) {
 		e.peerDone = true
 		e.logf("peer> EOF")
@@ -1359,10 +1431,21 @@ func (execAddr) String() string  { return "lib" }
 
 func (c idConn) LocalAddr() net.Addr { return execAddr{c.e} }
 
+// Write passes through and notes the writes that the transport refused.
+func (c idConn) Write(p []byte) (int, error) {
+	n, err := c.Conn.Write(p)
+	if err != nil {
+		c.e.writeErrs++
+		c.e.c.Count("wf_write_errors_returned", 1)
+		c.e.logf("lib> (Write of %d bytes returned n=%d err=%v; attempted: %s)", len(p), n, err, p)
+	}
+	return n, err
+}
+
 // runSession runs one session of a group with the group's shared Negotiator.
 // nested, if not nil, is run from inside the session's first Negotiate callback.
-func runSession(c *core.Case, cfg *Cfg, neg xmpp.Negotiator, idx int, overlap bool, nested func()) *exec {
-	e := &exec{c: c, cfg: cfg, sessIdx: idx, overlap: overlap, nested: nested, cfgHdr: -1, streamAds: map[string]bool{}, last: map[string]adEnt{}, negotiated: map[string]bool{}}
+func runSession(c *core.Case, cfg *Cfg, neg xmpp.Negotiator, idx int, overlap bool, nested func(), fault *faultPlan) *exec {
+	e := &exec{c: c, cfg: cfg, sessIdx: idx, overlap: overlap, nested: nested, fault: fault, cfgHdr: -1, streamAds: map[string]bool{}, last: map[string]adEnt{}, negotiated: map[string]bool{}}
 	e.init = cfg.Init
 	if cfg.S2S {
 		e.init |= uint8(xmpp.S2S)
@@ -1377,6 +1460,23 @@ func runSession(c *core.Case, cfg *Cfg, neg xmpp.Negotiator, idx int, overlap bo
 		script = e.receiverScript
 	}
 	e.conn = bufconn.NewScripted(script)
+	if fault != nil {
+		fp := bufconn.NoFault()
+		switch fault.Kind {
+		case "fail":
+			fp.FailWrite = fault.K
+		case "timeout":
+			fp.FailWrite = fault.K
+			fp.Err = &net.OpError{Op: "write", Net: "bufconn", Err: fmt.Errorf("c01: injected: %w", os.ErrDeadlineExceeded)}
+		case "short":
+			fp.ShortWriteAt = fault.Cut
+		}
+		e.conn.SetFault(fp)
+		e.logf("fault: write #%d (%s in the fault-free run) %s", fault.K, fault.Target, fault.Kind)
+		c.Count("wf_runs_"+cfg.Role, 1)
+		c.Count("wf_kind_"+fault.Kind, 1)
+		c.Count("wf_fault_on_"+fault.Target+"_write_"+cfg.Role, 1)
+	}
 	e.conn.SetAfterWrite(func(n int) {
 		w := e.conn.Written()
 		e.onWrite(w[len(w)-n:])
@@ -1477,6 +1577,9 @@ func runSession(c *core.Case, cfg *Cfg, neg xmpp.Negotiator, idx int, overlap bo
 		if p := e.pendingMandatory(final, nil); len(p) > 0 {
 			e.violate(7, "pending-mandatory", "constructor returned nil but %v of the last advertisement are mandatory, negotiable, eligible and un-negotiated (state %s)", p, stateStr(final))
 		}
+		if e.writeErrs > 0 {
+			e.violate(7, "established-after-write-error", "constructor returned nil although %d Write call(s) of the negotiation returned an error (what the library believes it sent did not reach the wire)", e.writeErrs)
+		}
 		if e.mustFail != "" {
 			e.violate(8, "accepted-"+e.mustFail, "ReceiveSession returned nil although the peer's selection was %s", e.mustFail)
 		}
@@ -1520,8 +1623,12 @@ func runSession(c *core.Case, cfg *Cfg, neg xmpp.Negotiator, idx int, overlap bo
 	if ng > 4 {
 		ng = 4
 	}
-	c.Sig("%s ws=%v s2s=%v tee=%v reused=%v overlap=%v init=%s feats=%d lists=%d negs=%d restarts=%d forced=%v refuse=%s %s",
-		cfg.Role, cfg.WS, cfg.S2S, cfg.Tee, idx > 0, overlap, stateStr(cfg.Init), len(cfg.Feats), lists, ng, rs, e.forced > 0, e.mustFail, outcome)
+	fsig := "none"
+	if fault != nil {
+		fsig = fault.Kind + "@" + fault.Target
+	}
+	c.Sig("%s ws=%v s2s=%v tee=%v reused=%v overlap=%v init=%s feats=%d lists=%d negs=%d restarts=%d forced=%v refuse=%s fault=%s %s",
+		cfg.Role, cfg.WS, cfg.S2S, cfg.Tee, idx > 0, overlap, stateStr(cfg.Init), len(cfg.Feats), lists, ng, rs, e.forced > 0, e.mustFail, fsig, outcome)
 	return e
 }
 
@@ -1612,7 +1719,7 @@ func runGroup(c *core.Case, g *Group) {
 					one(1)
 				}
 			}
-			res[i] = runSession(c, &cp, neg, i, g.Overlap, nested)
+			res[i] = runSession(c, &cp, neg, i, g.Overlap, nested, nil)
 		}
 		if g.Overlap {
 			var wg sync.WaitGroup
@@ -1640,6 +1747,45 @@ func runGroup(c *core.Case, g *Group) {
 		for i, e := range res {
 			seqs[i][strings.Join(e.seq, " ")] = true
 		}
+		if g.WriteFaults && rep == 0 {
+			golden := res[0]
+			marks := golden.conn.WriteMarks()
+			written := golden.conn.Written()
+			if len(marks) > 8 {
+				marks = marks[:8]
+			}
+			c.Count("wf_cases", 1)
+			for k := 1; k <= len(marks); k++ {
+				from := 0
+				if k > 1 {
+					from = marks[k-2]
+				}
+				target := "other"
+				if items := parseChunk(written[from:marks[k-1]]); len(items) > 0 {
+					switch items[0].kind {
+					case "hdr":
+						target = "header"
+						if k > 1 {
+							target = "restart_header"
+						}
+					case "features":
+						target = "features_list"
+					}
+				}
+				for _, kind := range []string{"fail", "timeout", "short"} {
+					fp := &faultPlan{K: k, Kind: kind, Target: target}
+					if kind == "short" {
+						if marks[k-1]-from < 2 {
+							continue
+						}
+						// deterministic cut inside the write: a third of the way in
+						fp.Cut = from + 1 + (marks[k-1]-from-1)/3
+					}
+					cp := *g.Sessions[0]
+					runSession(c, &cp, neg, 0, false, nil, fp)
+				}
+			}
+		}
 	}
 	for _, m := range seqs {
 		if len(m) > 1 {
@@ -1654,12 +1800,13 @@ func Prop() *core.Prop {
 	return &core.Prop{
 		ID:    "C01",
 		Level: core.Exploration,
-		Rule:  "each case configures 2-6 instrumented xmpp.StreamFeature values (PRNG masks over Secure/Authn, mandatory or voluntary, restarting or not, informational or negotiable, optional STARTTLS namespace, bind-like Ready, failing) and an initial state {0,Secure,Authn,Secure|Authn} x {c2s,s2s} x {TCP via xmpp.NewNegotiator, WebSocket via websocket.Negotiator}; even indexes run xmpp.NewSession four times against a scripted peer that advertises PRNG lists (subsets, orders, unknown, duplicate, ineligible, empty, look-alike elements sharing only the namespace or only the local name of a feature), odd indexes run xmpp.ReceiveSession against a peer sending fresh, unadvertised, repeated, informational, unknown and IQ-wrapped selections. 40% of the cases are groups of 2-4 sessions that share ONE Negotiator value and ONE []StreamFeature slice (sequentially, a quarter of them overlapping on goroutines; no race detector), a quarter of the cases set StreamConfig.TeeIn/TeeOut, restarting features may return a wrapper of their own around session.Conn() (which makes the negotiator re-install the tee), voluntary non-restarting features may carry Ready in their mask next to a mandatory feature, and 1/8 of the initiator cases are shaped tee + real-shaped STARTTLS + voluntary wrapping feature. A third of the random cases (and the deterministic families at case indexes 0-3 mod 32) use a config callback whose answer depends on the session (a profile, learnt from the session's transport) and on its Secure/Authn bits; in nested groups the second session lives its whole life inside the first Negotiate callback of the first. Rules 1-8 of DESIGN.md 5/C01 are checked in the callbacks, on every write of the library and at constructor return. distinct = (role, framing, c2s/s2s, initial state, #features, #lists, #negotiations, #restarts, forced STARTTLS, refusal category, outcome).",
+		Rule:  "each case configures 2-6 instrumented xmpp.StreamFeature values (PRNG masks over Secure/Authn, mandatory or voluntary, restarting or not, informational or negotiable, optional STARTTLS namespace, bind-like Ready, failing) and an initial state {0,Secure,Authn,Secure|Authn} x {c2s,s2s} x {TCP via xmpp.NewNegotiator, WebSocket via websocket.Negotiator}; even indexes run xmpp.NewSession four times against a scripted peer that advertises PRNG lists (subsets, orders, unknown, duplicate, ineligible, empty, look-alike elements sharing only the namespace or only the local name of a feature), odd indexes run xmpp.ReceiveSession against a peer sending fresh, unadvertised, repeated, informational, unknown and IQ-wrapped selections. 40% of the cases are groups of 2-4 sessions that share ONE Negotiator value and ONE []StreamFeature slice (sequentially, a quarter of them overlapping on goroutines; no race detector), a quarter of the cases set StreamConfig.TeeIn/TeeOut, restarting features may return a wrapper of their own around session.Conn() (which makes the negotiator re-install the tee), voluntary non-restarting features may carry Ready in their mask next to a mandatory feature, and 1/8 of the initiator cases are shaped tee + real-shaped STARTTLS + voluntary wrapping feature. A third of the random cases (and the deterministic families at case indexes 0-3 mod 32) use a config callback whose answer depends on the session (a profile, learnt from the session's transport) and on its Secure/Authn bits; in nested groups the second session lives its whole life inside the first Negotiate callback of the first. The families at case indexes 4-7 mod 32 run a single session fault-free and then once per (write of that run, fault kind in {error, timeout wrapping os.ErrDeadlineExceeded, short write}) with that Write call failing while the peer stays willing to continue (after a lost features list it selects one of the features whose List callback ran). Rules 1-8 of DESIGN.md 5/C01 are checked in the callbacks, on every write of the library and at constructor return. distinct = (role, framing, c2s/s2s, initial state, #features, #lists, #negotiations, #restarts, forced STARTTLS, refusal category, outcome).",
 		Assumptions: []string{
 			"a feature is identified by its namespace (the library's caches are keyed that way); configured features have distinct namespaces and non-empty local names",
 			"Parse consumes its element and Negotiate on the receiving side consumes the selection element, as the built-in features do; callbacks do no other wire I/O",
 			"eligibility (rules 1, 4, 7, 8) is judged against Session.State() OR-ed with the monitor's own model of the state (initial state plus every mask returned by a successful Negotiate callback); State() lacking a model bit is itself reported (rule 5, stale-state)",
 			"the configured features of a session at a step are what the case's config callback returns for that session (profile) in the state the features list of that step was advertised in; the reference evaluates that function itself and does not depend on when or how often the library consults the callback",
+			"an advertisement exists only as far as the Write calls carrying it succeeded (the monitor sees the library's output through the transport's after-successful-write hook); after any Write of the negotiation returned an error the session must not be reported established",
 			"rule 2: a feature is advertised only by an element with exactly its name (namespace and local name) in the current features list; rule 7 counts a mandatory feature as pending only if it was eligible when advertised and still is at constructor return",
 			"rule 2, other direction: when a negotiable STARTTLS-namespace feature is configured and eligible, the session is not secure and the first features list of the session does not advertise it, Negotiate of that feature must be the next callback (peer headers before a first list are always valid, so nothing can legitimately fail in between); on any later list such an attempt is a rule-2 violation",
 			"rule 6 also demands that a session is not reported established between a restart-requesting Negotiate and the fresh header, unless some Negotiate of that session put Ready into its own mask (the library takes a feature's Ready at its word)",
@@ -1702,6 +1849,11 @@ func Prop() *core.Prop {
 			"runs_with_dynamic_config", "config_callback_consultations", "nested_sessions_run",
 			"dyn_config_changed_between_lists_of_one_stream_initiator", "dyn_config_changed_between_lists_of_one_stream_receiver",
 			"dyn_same_stream_list_after_nested_session_initiator", "dyn_same_stream_list_after_nested_session_receiver",
+			// transport write faults on every write of the fault-free run (case
+			// indexes 4-7 mod 32)
+			"wf_cases", "wf_runs_receiver", "wf_runs_initiator", "wf_kind_fail", "wf_kind_timeout", "wf_kind_short",
+			"wf_write_errors_returned", "wf_fault_on_header_write_receiver", "wf_fault_on_features_list_write_receiver",
+			"wf_fault_on_restart_header_write_receiver", "wf_fault_on_header_write_initiator", "wf_fault_on_restart_header_write_initiator",
 			// elements that share only a namespace / only a local name with a feature
 			"r2_lookalike_elements_advertised_same_namespace", "r2_lookalike_elements_advertised_same_local_name",
 			"r2_lookalike_of_eligible_feature_without_the_real_element",
